@@ -50,6 +50,9 @@ PROGRAMS = collections.OrderedDict([
     ('p-var', 'var a = 1;'),
     ('p-func', 'function f(x) {\n  return x + 1;\n}\nf(2);\n'),
     ('p-nonascii', 'var s = "\u00e9\u20ac\\n", t = [1, 2];'),
+    ('p-wide', 'function f(\u4e2d\u6587, a\u00fc, bb\u00e9\u00e8, \u03c0) {\n'
+               '  var \u5909\u6570x = \u4e2d\u6587 + a\u00fc;\n'
+               '  return \u5909\u6570x + bb\u00e9\u00e8 + \u03c0 + "\u00ff?>~";\n}\n'),
     ('p-empty', ''),
     ('p-lines', 'var a = {\n  b: 1,\n  c: "x"\n};\nif (a) {\n  a.b++;\n}\n'),
     ('e-parse', 'var = ;'),
@@ -57,7 +60,7 @@ PROGRAMS = collections.OrderedDict([
     ('e-regex', 'var a = /x'),
 ])
 SECOND = 'b = 2;'          # the second node of a node list
-GOOD_QUICK = ['p-var', 'p-func', 'p-nonascii']
+GOOD_QUICK = ['p-var', 'p-func', 'p-nonascii', 'p-wide']
 GOOD_THOROUGH = GOOD_QUICK + ['p-empty', 'p-lines']
 BAD = ['e-parse', 'e-eof', 'e-regex']
 
@@ -68,6 +71,15 @@ NAMES = collections.OrderedDict([
     ('abs-other-dir', ('/srv/proj/src/a.js', '/srv/proj/lib/x/b.js',
                        '/srv/proj/build/js/out.js',
                        '/srv/proj/maps/out.js.map')),
+    # directories whose names are string prefixes of one another
+    ('abs-prefix-dirs', ('/srv/proj/src/a.js', '/srv/proj/src-gen/b.js',
+                         '/srv/proj/dist/out.js',
+                         '/srv/proj/dist-maps/out.js.map')),
+    ('abs-prefix-dirs-rev', ('/srv/proj/src-gen/a.js', '/srv/proj/src/b.js',
+                             '/srv/proj/dist.maps/out.js',
+                             '/srv/proj/dist/out.js.map')),
+    ('rel-wide', ('src/\u00e9t\u00e9/\u4e2d.js', 'src/b\u00fc?.js',
+                  'build/s\u00f8~.js', 'build/s\u00f8~.js.map')),
     ('rel-bare', ('a.js', 'b.js', 'out.js', 'out.js.map')),
     ('rel-subdir', ('src/a.js', 'src/b.js', 'build/out.js',
                     'build/out.js.map')),
@@ -598,6 +610,13 @@ def explore(mods, sc, tier, bag, herr, stats):
         return r
 
     r0 = one(())
+    if sc['api'] == 'write' and sc['map'] == 'same':
+        for s_ in r0.ctl.streams:
+            if s_.who == 'out':
+                m_ = re.search(r';base64[^,]*,([A-Za-z0-9+/=_-]*)',
+                               s_.getvalue())
+                for ch in set(m_.group(1) if m_ else ''):
+                    stats['b64:' + ch] += 1
     again = execute(mods, sc, ())
     if again.ctl.log != r0.ctl.log:
         herr.append('fault-free site log not reproducible for %r' % dict(sc))
@@ -676,6 +695,13 @@ def run(tier, rep):
     rep.cov['distinct_nontrivial'] = tot['nontrivial']
     rep.outcome(dict((k[4:], v) for k, v in tot.items()
                      if k.startswith('out:')))
+    digits = sorted(k[4:] for k in tot if k.startswith('b64:'))
+    rep.cov['inline_payload_base64_digits_seen'] = ''.join(digits)
+    if not set('+/') <= set(digits):
+        rep.harness_errors.append(
+            'no inline payload of the space contains the base64 digits 62 '
+            'and 63 (%r): the data URL alphabet is not exercised'
+            % ''.join(digits))
     nread = sum(1 for s in scs if s['api'] == 'read')
     rep.space('scenarios', read=nread, write=len(scs) - nread,
               total=len(scs))
